@@ -125,11 +125,13 @@ class Problem(object):
         if k in ('min_int', 'max_int'):
             return (k, self.int_term(2), False)
         if k in ('minmax_int', 'maxmin_int'):
-            return (k, [self.int_term(1), self.int_term(1)], False)
+            return (k, [self.int_term(1) for _ in range(
+                r.choice([1, 2, 2, 2, 2, 3, 4]))], False)
         if k in ('min_bv', 'max_bv'):
             return (k, self.bv_term(2), r.random() < 0.5)
         if k in ('minmax_bv', 'maxmin_bv'):
-            return (k, [self.bv_term(1), self.bv_term(1)], r.random() < 0.5)
+            return (k, [self.bv_term(1) for _ in range(
+                r.choice([1, 2, 2, 2, 2, 3, 4]))], r.random() < 0.5)
         soft = [(self.bool_term(1), r.randint(1, 4))
                 for _ in range(r.randint(1, 4))]
         return ('maxsmt', soft, False)
